@@ -248,6 +248,27 @@ func (c *streamCtx) histShapes(prop string) []func(v int) *histSpec {
 			step(700, c.off(), "failing scan again").withOracle("g1", f),
 			step(10, c.off(), "fault-free scan"))
 	}
+	// both the read and the write of the oldest candidate fail in one scale-down scan; nothing tells the informer anything new
+	// about that node; the next, fault-free scan must come back to it
+	shapes["double-fault"] = func(v int) *histSpec {
+		init := c.histWorld(5, 8, func(b *gbuild) { b.o.MinNodes = []int{1, 2, 0}[v%3]; b.o.FastNodeRemovalRate = 1 + v%2 })
+		victims := [][]string{{"g1-n4"}, {"g1-n4", "g1-n3"}, {"g1-n3"}}[v%3]
+		return hist(init, "double-fault",
+			step(0, c.off(), "scale-down: get and update of the oldest candidate(s) fail").withOracle("g1", k8sFail(victims, victims, nil)),
+			step(10, c.off(), "fault-free scan"),
+			step(10, c.off(), "once more"))
+	}
+	// the untainted set keeps its size while its members change (taint two, hand-untaint them, swap a cordon): the second
+	// scale-down must work on today's candidates
+	shapes["cordon-swap"] = func(v int) *histSpec {
+		init := c.histWorld(5, 8, func(b *gbuild) { b.o.MinNodes = 2; b.o.FastNodeRemovalRate = 2 })
+		young, old := "g1-n0", []string{"g1-n3", "g1-n4", "g1-n2"}[v%3]
+		return hist(init, "cordon-swap",
+			step(0, c.off(), "the youngest node is cordoned; the two oldest of the other four are tainted", hEdit{Op: "cordon", Node: young}),
+			step(20, c.off(), "taints removed by hand; the cordon moves to an old node", hEdit{Op: "untaint", Node: "g1-n4", Key: escKey},
+				hEdit{Op: "untaint", Node: "g1-n3", Key: escKey}, hEdit{Op: "uncordon", Node: young}, hEdit{Op: "cordon", Node: old}),
+			step(20, c.off(), "again"))
+	}
 	// controller constructed earlier: the cloud group's facts change between construction and the first scan
 	shapes["constructed-earlier"] = func(v int) *histSpec {
 		init := c.histWorld(4, []int64{8, 300, 40}[v%3], func(b *gbuild) {
@@ -389,20 +410,20 @@ func (c *streamCtx) histShapes(prop string) []func(v int) *histSpec {
 		return hist(init, "node-size-change", steps...)
 	}
 	order := []string{"taint-wait-reap", "repeated-scale-down", "cooldown", "pods-move", "restart", "dry", "from-zero", "transient-failure",
-		"constructed-earlier", "lister-lag", "cordon-annotate", "external-taints", "two-groups"}
+		"constructed-earlier", "lister-lag", "cordon-annotate", "external-taints", "two-groups", "double-fault", "cordon-swap"}
 	byProp := map[string][]string{
 		"C01":  {"taint-wait-reap", "pods-move", "restart", "external-taints", "lister-lag", "cordon-annotate"},
 		"C02":  {"cooldown", "restart", "from-zero", "dry", "two-groups", "transient-failure"},
-		"C03":  {"constructed-earlier", "repeated-scale-down", "taint-wait-reap", "constructed-earlier", "cordon-annotate"},
+		"C03":  {"constructed-earlier", "repeated-scale-down", "taint-wait-reap", "constructed-earlier", "cordon-annotate", "cordon-swap", "double-fault"},
 		"C04":  {"constructed-earlier", "cooldown", "constructed-earlier", "from-zero", "two-groups"},
 		"C06":  {"constructed-earlier", "repeated-scale-down", "cooldown", "constructed-earlier", "from-zero"},
 		"C07":  {"cooldown", "restart", "dry", "transient-failure"},
-		"C08":  {"repeated-scale-down", "taint-wait-reap", "cordon-annotate"},
-		"C09":  {"cordon-annotate", "pods-move", "taint-wait-reap"},
+		"C08":  {"repeated-scale-down", "double-fault", "taint-wait-reap", "cordon-annotate", "cordon-swap"},
+		"C09":  {"cordon-annotate", "cordon-swap", "pods-move", "taint-wait-reap", "double-fault"},
 		"C10":  {"cordon-annotate", "taint-wait-reap", "pods-move"},
 		"C11":  {"dry", "from-zero"},
 		"C12":  {"two-groups", "transient-failure"},
-		"C15":  {"repeated-scale-down", "external-taints", "restart", "cooldown"},
+		"C15":  {"repeated-scale-down", "external-taints", "double-fault", "restart", "cooldown", "cordon-swap"},
 		"C19":  {"lister-lag", "transient-failure", "taint-wait-reap", "two-groups"},
 		"C05S": {"node-size-change", "from-zero", "node-size-change", "restart", "cooldown"},
 		"C20":  {"transient-failure", "lister-lag", "external-taints", "constructed-earlier", "from-zero"},
